@@ -37,7 +37,8 @@ type TapeSpec struct {
 
 type DrawRec struct {
 	N     uint32 `json:"n"`
-	Index int64  `json:"index"` // index the simulator asked for (-1: raw mode)
+	Index int64  `json:"index"`        // index the simulator asked for (-1: raw mode)
+	At    int    `json:"at,omitempty"` // number of 32-bit words the tape had served when the draw was announced
 }
 
 type ReadRec struct {
@@ -95,7 +96,7 @@ func (t *Tape) noteDraw(n uint32) {
 	t.lastN = n
 	k := len(t.Draws)
 	if t.spec.Mode != "choice" || n == 0 {
-		t.Draws = append(t.Draws, DrawRec{n, -1})
+		t.Draws = append(t.Draws, DrawRec{n, -1, t.wordNo})
 		return
 	}
 	var idx uint32
@@ -120,7 +121,7 @@ func (t *Tape) noteDraw(n uint32) {
 			idx = uint32(t.rng.U64() % uint64(n))
 		}
 	}
-	t.Draws = append(t.Draws, DrawRec{n, int64(idx)})
+	t.Draws = append(t.Draws, DrawRec{n, int64(idx), t.wordNo})
 	t.nextWord = probeWord(n, idx)
 	t.haveNext = true
 }
